@@ -40,13 +40,16 @@ def run_case(case):
     specs = case["frames"]
     driver = case.get("driver", "data_frame")
     cf = case.get("cf", True) and driver != "recv"
-    events, ws, fs, frames, ends, wire = rx.run_stream(specs, case.get("cuts", []), driver, cf)
-    want, wwr = rx.expected_events(frames, ends, len(wire), driver, cf)
+    fire = bool(case.get("fire")) and driver != "recv"
+    events, ws, fs, frames, ends, wire = rx.run_stream(specs, case.get("cuts", []), driver, cf, fire)
+    want, wwr = rx.expected_events(frames, ends, len(wire), driver, cf, fire)
     rejected = any(w[0] == "raise" and w[1] != "WebSocketConnectionClosedException" for w in want)
     clause = "accept"
     if rejected:
-        ev, _ = rm.StreamModel(control_frame=cf).run(frames)
+        ev, _ = rm.StreamModel(control_frame=cf, fire_cont_frame=fire).run(frames)
         clause = ev[-1][2]
+    if fire:
+        driver = driver + "+per-fragment"
     ok = rx.compare(obs, events, want, f"{'reject:' + clause if rejected else 'accept'}|{driver}")
     if ok:
         rx.compare_writes(obs, fs, wwr, f"{'reject:' + clause if rejected else 'accept'}|{driver}")
@@ -55,7 +58,7 @@ def run_case(case):
     interesting = rejected or case.get("boundary") or any(
         f.opcode in rm.CONTROL_OPS or not f.fin or f.opcode == rm.CONT for f in frames
     )
-    obs.nt = (sub, case.get("k") or (rx.shape(frames), clause)) if interesting else None
+    obs.nt = (sub, fire, case.get("k") or (rx.shape(frames), clause)) if interesting else None
     return obs
 
 
@@ -89,7 +92,8 @@ def sub_a():
                     if unfinished and op != rm.CLOSE:
                         specs.append({"fin": 1, "op": rm.CONT, "p": b"z"})
                     yield {"sub": "A", "frames": specs, "k": (b0, masked, n, inside), "boundary": n in (125, 126),
-                           "driver": "data_frame" if (b0 + n) % 3 else "recv" if op != rm.CONT or inside else "data_frame", "cf": True}
+                           "driver": "data_frame" if (b0 + n) % 3 else "recv" if op != rm.CONT or inside else "data_frame", "cf": True,
+                           "fire": (b0 + masked + n + inside) % 4 == 0}
 
 
 def sub_b(codes):
@@ -136,6 +140,8 @@ def sub_d(length, first_syms):
                 specs.append({"fin": fin, "op": op, "p": bytes([97 + i]) if op != rm.PING else bytes([48 + i]) * (i % 3)})
             h = hash(hist) if False else sum((SYM_NAMES.index(s) + 1) * (i + 3) for i, s in enumerate(hist))
             yield {"sub": f"D{length}", "frames": specs, "k": hist, "driver": ("data_frame", "data", "recv")[h % 3] , "cf": bool(h & 1)}
+            # same history with per-fragment delivery (fire_cont_frame=True): sequencing must be policed there as well
+            yield {"sub": f"D{length}", "frames": specs, "k": hist, "driver": ("data_frame", "data")[h % 2], "cf": bool(h & 2), "fire": True}
 
 
 @st.composite
@@ -172,7 +178,8 @@ def mixes(draw):
     if cut is not None:
         specs = specs[: cut + 1]
     driver = draw(st.sampled_from(["data_frame", "data", "recv"]))
-    return {"sub": "mix:" + kind, "frames": specs, "driver": driver, "cf": draw(st.booleans()) if driver != "recv" else False}
+    return {"sub": "mix:" + kind, "frames": specs, "driver": driver, "cf": draw(st.booleans()) if driver != "recv" else False,
+            "fire": draw(st.integers(0, 2)) == 0}
 
 
 def jobs(tier, seed):
